@@ -147,6 +147,13 @@ struct TestActor {
     log: Arc<Log>,
     /// conc cases: what a handler does besides logging
     extra: Option<Arc<ConcShared>>,
+    /// parks `pre_start` (name reserved, not yet activated) until released
+    gate: Option<StartGate>,
+}
+
+struct StartGate {
+    entered: mpsc::Sender<()>,
+    release: Mutex<Option<oneshot::Receiver<()>>>,
 }
 
 impl Actor for TestActor {
@@ -156,6 +163,13 @@ impl Actor for TestActor {
 
     async fn pre_start(&self, _m: &Mailbox<Self>, (): ()) -> Result<u32, u32> {
         self.log.push(self.id, Obs::Hook(0, self.hooks[0]));
+        if let Some(g) = &self.gate {
+            g.entered.send(()).ok();
+            let rx = g.release.lock().unwrap().take();
+            if let Some(rx) = rx {
+                rx.await.ok();
+            }
+        }
         if self.hooks[0] { Ok(0) } else { Err(1) }
     }
 
@@ -490,6 +504,33 @@ impl Det {
         if parts.is_empty() { "-".into() } else { parts.join(" ") }
     }
 
+    /// an actor spawned under `name` that still holds it: its spawn was accepted and it has neither failed to
+    /// start nor finished `post_stop` (the worker is frozen, so the log is exact)
+    fn holder_of(&self, name: &str) -> Option<u32> {
+        self.actors.iter().find(|(a, s)| {
+            s.name.as_deref() == Some(name) && {
+                let l = self.log.of(**a);
+                !l.iter().any(|o| matches!(o, Obs::Hook(3, _) | Obs::Hook(0, false)))
+            }
+        }).map(|(a, _)| *a)
+    }
+
+    /// `NameTaken` exactly when somebody holds the name
+    fn name_monitor(&mut self, a: u32, name: &Option<String>, holder: Option<u32>, out: &str) {
+        let Some(n) = name else { return };
+        match (holder, out) {
+            (Some(h), "pending") => self.mon.push((
+                "C19:two-live-actors-one-name".into(),
+                format!("spawn of actor {a} under name {n} accepted while actor {h} holds that name (reserved or alive)"),
+            )),
+            (None, "nametaken") => self.mon.push((
+                "C19:name-taken-but-free".into(),
+                format!("spawn of actor {a} under name {n} refused although no actor holds that name"),
+            )),
+            _ => {}
+        }
+    }
+
     fn test_mailbox(&self, a: u32) -> Option<Mailbox<TestActor>> {
         match self.actors.get(&a).map(|s| &s.slot) {
             Some(Slot::Test { mailbox: Some(m), .. }) => Some(m.clone()),
@@ -515,7 +556,7 @@ impl Det {
                 let log = self.log.clone();
                 let cluster = self.cluster.as_ref().unwrap();
                 let mut sp = cluster
-                    .spawn(move || TestActor { id: a, hooks, log, extra: None }, ())
+                    .spawn(move || TestActor { id: a, hooks, log, extra: None, gate: None }, ())
                     .with_capacity(cap);
                 let name = if *name == "-" { None } else { Some(name.to_string()) };
                 if let Some(n) = &name {
@@ -527,8 +568,10 @@ impl Det {
                         sp = sp.with_supervisor(m);
                     }
                 }
+                let holder = name.as_deref().and_then(|n| self.holder_of(n));
+                let name_c = name.clone();
                 let mut fut = sp.into_future();
-                match poll_once(Pin::new(&mut fut)) {
+                let out: String = match poll_once(Pin::new(&mut fut)) {
                     Poll::Ready(Err(SpawnError::NameTaken(_))) => "nametaken".into(),
                     Poll::Ready(Err(SpawnError::Unavailable)) => "unavailable".into(),
                     Poll::Ready(_) => "early".into(),
@@ -543,7 +586,9 @@ impl Det {
                         });
                         "pending".into()
                     }
-                }
+                };
+                self.name_monitor(a, &name_c, holder, &out);
+                out
             }
             ["spawnsup", a, name, cap] => {
                 let (Some(a), Some(cap)) = (num(a), cap.parse::<usize>().ok().and_then(NonZeroUsize::new)) else {
@@ -563,8 +608,10 @@ impl Det {
                 if let Some(n) = &name {
                     sp = sp.with_name(n.clone());
                 }
+                let holder = name.as_deref().and_then(|n| self.holder_of(n));
+                let name_c = name.clone();
                 let mut fut = sp.into_future();
-                match poll_once(Pin::new(&mut fut)) {
+                let out: String = match poll_once(Pin::new(&mut fut)) {
                     Poll::Ready(Err(SpawnError::NameTaken(_))) => "nametaken".into(),
                     Poll::Ready(Err(SpawnError::Unavailable)) => "unavailable".into(),
                     Poll::Ready(_) => "early".into(),
@@ -579,7 +626,9 @@ impl Det {
                         });
                         "pending".into()
                     }
-                }
+                };
+                self.name_monitor(a, &name_c, holder, &out);
+                out
             }
             ["await", a] => {
                 let Some(s) = num(a).and_then(|a| self.actors.get_mut(&a)) else { return "nofuture".into() };
@@ -1167,7 +1216,7 @@ fn finish_det(d: &mut Det, ex: &mut Exec) {
                 .cluster
                 .as_ref()
                 .unwrap()
-                .spawn(move || TestActor { id: 999_999, hooks: [true; 4], log, extra: None }, ())
+                .spawn(move || TestActor { id: 999_999, hooks: [true; 4], log, extra: None, gate: None }, ())
                 .with_name(n.clone())
                 .into_future();
             if let Poll::Ready(Err(SpawnError::NameTaken(_))) = poll_once(Pin::new(&mut probe)) {
@@ -1344,7 +1393,7 @@ fn run_conc(spec: &ConcSpec) -> Vec<String> {
         let supervised = sup.is_some() && rng.chance(1, 2) && used_keys.insert((name.clone(), cap));
         let (l, x) = (log.clone(), shared.clone());
         let mut sp = cluster
-            .spawn(move || TestActor { id, hooks, log: l, extra: Some(x) }, ())
+            .spawn(move || TestActor { id, hooks, log: l, extra: Some(x), gate: None }, ())
             .with_capacity(NonZeroUsize::new(cap).unwrap());
         if let Some(n) = &name {
             sp = sp.with_name(n.clone());
@@ -1471,7 +1520,7 @@ fn run_conc(spec: &ConcSpec) -> Vec<String> {
                     let id = 2000 + (k as u32) * 500 + j;
                     let l2 = l.clone();
                     let r = block_on_timeout(
-                        cl.spawn(move || TestActor { id, hooks: [true; 4], log: l2, extra: None }, ())
+                        cl.spawn(move || TestActor { id, hooks: [true; 4], log: l2, extra: None, gate: None }, ())
                             .with_name(*n)
                             .into_future(),
                         LONG,
@@ -1494,6 +1543,77 @@ fn run_conc(spec: &ConcSpec) -> Vec<String> {
                 (n.to_string(), taken, ids)
             }));
         }
+    }
+
+    // overlapping spawns under one name: the second arrives while the first is parked inside `pre_start`
+    // (name reserved, not activated); both orders of completion
+    let mut z_ids: Vec<u32> = vec![];
+    {
+        let (etx, erx) = mpsc::channel();
+        let (rtx, rrx) = oneshot::channel();
+        let l = log.clone();
+        let gate = StartGate { entered: etx, release: Mutex::new(Some(rrx)) };
+        let mut fut1 = cluster
+            .spawn(move || TestActor { id: 3001, hooks: [true; 4], log: l, extra: None, gate: Some(gate) }, ())
+            .with_name("z")
+            .with_capacity(NonZeroUsize::new(7).unwrap())
+            .into_future();
+        let _ = poll_once(Pin::new(&mut fut1));
+        let entered = erx.recv_timeout(LONG).is_ok();
+        let hidden = cluster.lookup::<TestActor, _>("z").is_none();
+        let l = log.clone();
+        let r2 = block_on_timeout(
+            cluster
+                .spawn(move || TestActor { id: 3002, hooks: [true; 4], log: l, extra: None, gate: None }, ())
+                .with_name("z")
+                .with_capacity(NonZeroUsize::new(9).unwrap())
+                .into_future(),
+            LONG,
+        );
+        let taken = matches!(r2, Some(Err(SpawnError::NameTaken(_))));
+        rtx.send(()).ok();
+        let r1 = block_on_timeout(fut1, LONG);
+        let found = cluster.lookup::<TestActor, _>("z");
+        let visible = found.is_some();
+        let first = found.map(|m| m.capacity().get() == 7).unwrap_or(false);
+        let mut live: Vec<(Mailbox<TestActor>, ActorHandle<u32>)> = vec![];
+        if let Some(Ok(x)) = r1 {
+            z_ids.push(3001);
+            live.push(x);
+        }
+        if let Some(Ok(x)) = r2 {
+            z_ids.push(3002);
+            live.push(x);
+        }
+        if rng.chance(1, 2) {
+            live.reverse();
+        }
+        let mut all_exited = entered;
+        for (m, h) in live {
+            m.stop();
+            all_exited &= block_on_timeout(h, LONG).is_some();
+        }
+        // free again: invisible, and a fresh spawn under the name succeeds
+        let mut free = all_exited && cluster.lookup::<TestActor, _>("z").is_none();
+        let l = log.clone();
+        match block_on_timeout(
+            cluster
+                .spawn(move || TestActor { id: 3003, hooks: [true; 4], log: l, extra: None, gate: None }, ())
+                .with_name("z")
+                .into_future(),
+            LONG,
+        ) {
+            Some(Ok((m, h))) => {
+                z_ids.push(3003);
+                m.stop();
+                free &= block_on_timeout(h, LONG).is_some();
+            }
+            _ => free = false,
+        }
+        hist.push(format!(
+            "hist overlap {} {} {} {} {}",
+            taken as u8, hidden as u8, visible as u8, first as u8, free as u8
+        ));
     }
 
     let mut slogs: Vec<SenderLog> = threads.into_iter().map(|t| t.join().expect("sender thread")).collect();
@@ -1665,6 +1785,9 @@ fn run_conc(spec: &ConcSpec) -> Vec<String> {
         for i in ids {
             named.push((n.clone(), *i));
         }
+    }
+    for i in &z_ids {
+        named.push(("z".into(), *i));
     }
     for (n, id) in named {
         let l = log.of_seq(id);
@@ -1857,6 +1980,17 @@ fn judge(w: &[&str]) -> (String, Option<(&'static str, String)>) {
             verdict(s == expect, "supervision", "C19:conc-supervision", w.join(" "))
         }
         ["stuck", _] => ("reject stuck".into(), Some(("C19:conc-stuck", w.join(" ")))),
+        ["abort"] => (
+            "reject abort".into(),
+            Some(("C19:abort", "the process running this scenario on the real code was aborted (panic in a no-unwind context)".into())),
+        ),
+        ["hang"] => ("reject hang".into(), Some(("C19:hang", "the process running this scenario made no progress".into()))),
+        ["panic", ..] => ("reject panic".into(), Some(("C19:harness-panic", w.join(" ")))),
+        ["overlap", flags @ ..] if flags.len() == 5 && flags.iter().all(|f| *f == "0" || *f == "1") => {
+            // second spawn refused / name hidden while starting / visible once started / resolves to the first /
+            // free after both are gone
+            verdict(flags.iter().all(|f| *f == "1"), "overlapping-spawn", "C19:two-live-actors-one-name", w.join(" "))
+        }
         _ => bad(),
     }
 }
